@@ -134,7 +134,7 @@ fn partition_sub_groups(files: Vec<PathAndMetadata>, config: &DedupeConfig) -> (
 } // verus!
 fn main() {}
 ''')
-    ub.functions = ["dedupe::partition [slices: the two retain predicates, the modified_before bail-out]"]
+    ub.functions = ["dedupe::partition [slices: the two retain predicates, the modified_before bail-out, the sub-grouping call]"]
     ub.assumptions = [
         "Vec::retain keeps exactly the elements for which the predicate returns true (std); the `if !config.no_check_size` guard around the 2nd retain is not part of the slice",
         "dedupe::was_modified is an uninterpreted predicate over the files and the timestamp (chrono conversions); FileMetadata::is_file/len return the file's current state",
